@@ -62,8 +62,11 @@ def _body(rng, evs, n, allow, own=None, nsubs=0):
             else:
                 cmd = rng.choice(['ON', 'ON', 'OFF', 'STOP'])
             out.append(['C', ev, cmd])
-        elif r < 0.88 and 'E' in allow:
+        elif r < 0.86 and 'E' in allow:
             out.append(['E'])
+        elif r < 0.90 and 'S' in allow:
+            # STOP: the harness answers with CONT
+            out.append(['S'])
         elif r < 0.96 and 'G' in allow and nsubs:
             out.append(['G', rng.randrange(nsubs)])
         else:
@@ -77,16 +80,16 @@ def gen(rng, tier, prop):
     nsubs = rng.randint(0, 2)
     prog = {'events': evs}
     main = [['C', ev, 'ON'] for ev in evs if rng.random() < 0.75]
-    main += _body(rng, evs, rng.randint(3, 14 if not big else 30), 'EG', nsubs=nsubs)
+    main += _body(rng, evs, rng.randint(3, 14 if not big else 30), 'EGS', nsubs=nsubs)
     if rng.random() < 0.5:
         # a FOR loop around a few statements
         i = rng.randint(0, len(main))
-        inner = _body(rng, evs, rng.randint(1, 4), 'EG', nsubs=nsubs)
+        inner = _body(rng, evs, rng.randint(1, 4), 'EGS', nsubs=nsubs)
         main = main[:i] + [['F', rng.randint(2, 4)]] + inner + [['N']] + main[i:]
     prog['main'] = main
-    prog['subs'] = [_body(rng, evs, rng.randint(1, 4), 'E') for _ in range(nsubs)]
-    prog['handlers'] = {ev: _body(rng, evs, rng.randint(1, 5), 'E', own=ev) for ev in evs}
-    prog['eh'] = _body(rng, evs, rng.randint(1, 3), '')
+    prog['subs'] = [_body(rng, evs, rng.randint(1, 4), 'ES') for _ in range(nsubs)]
+    prog['handlers'] = {ev: _body(rng, evs, rng.randint(1, 5), 'ES', own=ev) for ev in evs}
+    prog['eh'] = _body(rng, evs, rng.randint(1, 3), 'S')
     lines, ids0 = compile_prog(prog)
     nums = sorted(lines)
     # no occurrence is keyed on the first line of a trap routine: the engine executes it in the same
@@ -228,6 +231,8 @@ def to_basic(lines):
             t = 'NEXT'
         elif k == 'END':
             t = 'END'
+        elif k == 'S':
+            t = 'STOP'
         elif k == 'RET':
             t = 'RETURN'
         elif k == 'RESNEXT':
@@ -410,6 +415,11 @@ def model_traces(lines, starts, evs, occ, limit=400, on_deliver=None, timer_leni
                     m.pc = fr[0]
             elif k == 'END':
                 m.running = False
+            elif k == 'S':
+                # STOP, then CONT typed in direct mode: execution continues after the STOP statement;
+                # trap states, pending occurrences, the handler stack and the error-handler state are kept
+                m.trace.append(-L)
+                m.pc = nxt[L]
             elif k == 'RET':
                 if not m.stack:
                     m.running = False    # RETURN without GOSUB
@@ -516,8 +526,19 @@ def run(case):
             w.poll_hook = hook
             w.tick_sleeps = 0
             r = d.exec(b'RUN', poll_cap=20000)
-            w.poll_hook = None
             out = r.out
+            conts = 0
+            while conts < 40:
+                # 'Break in N' from a STOP statement: mark it in the trace and continue
+                tail_line = r.out.rstrip(b'\r\n').split(b'\n')[-1]
+                if not tail_line.startswith(b'Break in '):
+                    break
+                conts += 1
+                out += b'\n'
+                r = d.exec(b'CONT', poll_cap=20000)
+                out += r.out
+                w.stats['conts'] += 1
+            w.poll_hook = None
             # after the program ended: occurrences in direct mode must not start handlers
             tail = b''
             for ev in after:
@@ -531,6 +552,8 @@ def run(case):
             ln = ln.strip()
             if ln.startswith(b'#') and ln[1:].isdigit():
                 trace.append(int(ln[1:]))
+            elif ln.startswith(b'Break in ') and ln[9:].rstrip(b'\xff').isdigit():
+                trace.append(-int(ln[9:].rstrip(b'\xff')))
         if b'#' in tail:
             run.violate('C38', 'handler-ran-in-direct-mode',
                         'an occurrence after the program ended started a handler during direct statements: %r' % tail)
